@@ -52,5 +52,25 @@ PLAN = {
         level_text="every model state on shapes incl. spinless, heterogeneous and 3-spin sites x {default, ignored, custom subsets of 10 candidates incl. non-linear and non-dyadic ones}: analysis completes, every label in exactly one block and recovered from its address, reference H block-diagonal, every c, c+, c+c maps a block into one block and getBlockMapping lists exactly the non-zero block pairs",
         runs=[("san", "hx", "C07", 16, [])], deadline_quick=900,
         rule="BFS over generator histories x analyses; non-trivial = H non-diagonal or degenerate"),
+    "C13": dict(
+        engine="histx", technique="explicit-state BFS over TwoParticleGFContainer call histories (prepareAll with 5 index sets, computeAll split/unsplit, on-demand lookups, per-element prepare+compute) with state abstraction; directly constructed TwoParticleGF objects as reference model",
+        level_text="all call sequences up to depth 3 (thorough 4) over 39 calls on two 2-mode models: every computed element (stored or alias) returns the value of a directly constructed object on a 64-triple box, and after a bulk computeAll every listed element is computed and evaluable",
+        runs=[("san", "hx", "C13", 16, [])], deadline_quick=900,
+        rule="BFS over call histories, dedup by abstract container state (keys, alias permutation, element identity classes, statuses); non-trivial = history of >= 2 calls"),
+    "C02": dict(
+        engine="modelx", technique="explicit-state BFS over model histories x beta x index tuples x frequency box on the real TwoParticleGF (5 evaluation paths); time-ordered simplex integral via confluent divided differences as oracle",
+        level_text="every model state on S1-S4 (+S6 at depth 1) x beta {1,10} x index tuples x box [-2,1]^3 (all resonance conditions): on-demand values equal the reference integral, and the tables of compute(false/true,freqs) and computeAll split/unsplit equal the on-demand values entry by entry",
+        runs=[("san", "hx", "C02", 16, [])], thorough_extra=[("cplx", "hx", "C02", 16, [])], deadline_quick=900,
+        rule="BFS over generator histories x betas x tuples x 64 frequency triples; non-trivial = H non-diagonal or degenerate"),
+    "C12": dict(
+        engine="modelx", technique="exhaustive enumeration of hopping matrices over a value alphabet on the real pipeline; (z-h)^-1 and Gamma=0 as oracle",
+        level_text="all real symmetric hopping matrices over {0,+-1,0.5} for 2 modes, {0,+-1} for 3 modes (thorough: 4 values), spinful 1- and 2-site matrices with spin-flip entries x beta {1,10} x all tuples x box: G equals the free propagator and the irreducible vertex vanishes",
+        runs=[("san", "hx", "C12", 16, [])], thorough_extra=[("cplx", "hx", "C12", 16, [])], deadline_quick=900,
+        rule="flat enumeration of hopping matrices (incl. zero, block-diagonal, degenerate); non-trivial = non-diagonal or degenerate h"),
+    "C15": dict(
+        engine="histx", technique="exhaustive enumeration of window sizes x frequency triples on the real MatsubaraContainer4 (injective stub source) and the real Vertex4",
+        level_text="window sizes 0..6 (thorough 8) x every triple of a box exceeding the window by 2 on every side with an injective stub source (pure layout), and the real Vertex4 on model states of S1,S2 x all tuples x N=0..2: operator() equals value() exactly and value() is chi - chi0",
+        runs=[("san", "hx", "C15", 8, [])],
+        rule="flat enumeration window x triple; BFS over generator histories for the real vertex"),
 }
 NOT_APPLICABLE = {}
